@@ -186,11 +186,11 @@ def run_cases(ck: Check, n2d: int, n3d: int):
         model(f"c13 {pre}_curvature {tail}", float(d.interface_curvature(*args)), case)
         model(f"c13 {pre}_volume_approx {fbits(R)} " + " ".join(fbits(a) for a in amps), float(d.volume_approx), case)
         # outline
-        ip = d.interface_position(th, ph) if pre == "p3d" else None
-        if ip is not None:
-            unit = np.array([math.sin(th) * math.cos(ph), math.sin(th) * math.sin(ph), math.cos(th)])
-            if not np.allclose(ip, pos + d.interface_distance(th, ph) * unit, rtol=1e-13, atol=1e-13):
-                ck.fail("interface_position is not centre + distance * direction", {**sig, "check": "interface_position_eq"}, case)
+        # (all three classes: the axisymmetric class takes (θ, φ) like every 3-D droplet and ignores φ in the distance)
+        ip = d.interface_position(th, ph)
+        unit = np.array([math.sin(th) * math.cos(ph), math.sin(th) * math.sin(ph), math.cos(th)])
+        if not np.allclose(ip, pos + float(d.interface_distance(*args)) * unit, rtol=1e-13, atol=1e-13):
+            ck.fail(f"{cls_name}: interface_position is not centre + distance * direction", {**sig, "check": "interface_position_eq"}, case)
         # first order: curvature vs finite-difference mean curvature, volume_approx vs quadrature
         u = gen_amps(rng, N, 1.0)
         if np.any(u) and i % 3 == 0:
@@ -210,16 +210,19 @@ def run_cases(ck: Check, n2d: int, n3d: int):
             if gv[1] > 0.15 * gv[0] + 1e-12:
                 ck.fail(f"{cls_name}: volume_approx does not agree with the exact volume to first order ({gv[0]:.3g} -> {gv[1]:.3g})",
                         {**sig, "check": "volume_approx_first_order"}, {**case, "direction": u.tolist()})
-        if pre == "p3d" and i % 10 == 0 and max(abs(amps)) < 0.2:
-            vq = volume3d_quadrature(d)
-            if not rel_close(float(d.volume), vq, 1e-6):
-                ck.fail(f"3-D volume {d.volume} but the integral over the body is {vq}", {**sig, "check": "volume3d"}, case)
+        if i % 10 in (0, 1) and max(abs(amps)) < 0.2:
+            if pre == "p3d":
+                vq = volume3d_quadrature(d)
+                if not rel_close(float(d.volume), vq, 1e-6):
+                    ck.fail(f"3-D volume {d.volume} but the integral over the body is {vq}", {**sig, "check": "volume3d"}, case)
             tri = d.get_triangulation(resolution=R)
             vv = tri["vertices"] - pos
             rr = np.linalg.norm(vv, axis=1)
-            tht, pht = np.arccos(vv[:, 2] / rr), np.arctan2(vv[:, 1], vv[:, 0])
-            if not np.allclose(rr, d.interface_distance(tht, pht), rtol=1e-9, atol=1e-12):
-                ck.fail("triangulation vertices do not lie on the interface", {**sig, "check": "triangulation_on_interface"}, case)
+            tht, pht = np.arccos(np.clip(vv[:, 2] / rr, -1, 1)), np.arctan2(vv[:, 1], vv[:, 0])
+            want = d.interface_distance(tht, pht) if pre == "p3d" else d.interface_distance(tht)
+            ck.count(f"triangulation_{pre}")
+            if not np.allclose(rr, want, rtol=1e-9, atol=1e-12):
+                ck.fail(f"{cls_name}: triangulation vertices do not lie on the interface", {**sig, "check": "triangulation_on_interface"}, case)
         if len(ck.samples) < 4:
             ck.sample(case)
     # zero amplitudes: everything reduces to the sphere
